@@ -78,7 +78,8 @@ impl Kern {
                 if d.fract() == 0.0 && d.abs() < 64.0 {
                     base.powi(*d as i32)
                 } else {
-                    base.powf(*d)
+                    // b^d = exp(d ln b) for a positive base
+                    (d * base.ln()).exp()
                 }
             }
             Kern::Sigmoid(g, c) => {
@@ -321,6 +322,10 @@ fn label_pair(rng: &mut Rng) -> (f64, f64) {
 // ------------------------------------------------------------------------------------------
 // search oracles (from the property text)
 // ------------------------------------------------------------------------------------------
+thread_local! {
+    static HANGS: std::cell::Cell<usize> = std::cell::Cell::new(0);
+}
+
 fn svc_input(k: &Kern, x: &[Vec<f64>], y: &[f64], c: f64, epoch: usize, tol: f64, reps: usize) -> Value {
     json!({"entry": "svc", "kernel": k.to_json(), "x": x, "y": y, "c": c, "epoch": epoch, "tol": tol, "reps": reps})
 }
@@ -387,6 +392,10 @@ fn make_queries(rng: &mut Rng, x: &[Vec<f64>], extra: usize) -> Vec<Vec<f64>> {
 }
 
 fn check_svc(out: &mut Out, rng: &mut Rng, k: &Kern, x: &[Vec<f64>], y: &[f64], c: f64, epoch: usize, tol: f64, reps: usize, family: &str) -> bool {
+    if HANGS.with(|h| h.get()) >= 3 {
+        out.count("search:skipped-after-3-hangs");
+        return true;
+    }
     let n = x.len();
     let q = make_queries(rng, x, 3);
     let mut key: Vec<f64> = x.iter().flatten().cloned().collect();
@@ -401,6 +410,7 @@ fn check_svc(out: &mut Out, rng: &mut Rng, k: &Kern, x: &[Vec<f64>], y: &[f64], 
         out.count(&format!("search:svc:{}:{}", family, k.name()));
         match svc_guarded(k, x, y, c, epoch, tol, &q, false, 30) {
             None => {
+                HANGS.with(|h| h.set(h.get() + 1));
                 out.fail("svc_termination", "SVC::fit did not return within 30 s", svc_input(k, x, y, c, epoch, tol, reps));
                 return false;
             }
@@ -499,6 +509,10 @@ fn svr_oracle(k: &Kern, x: &[Vec<f64>], y: &[f64], eps: f64, c: f64, tol: f64, r
 }
 
 fn check_svr(out: &mut Out, k: &Kern, x: &[Vec<f64>], y: &[f64], eps: f64, c: f64, tol: f64, family: &str, worst: &mut f64) -> bool {
+    if HANGS.with(|h| h.get()) >= 3 {
+        out.count("search:skipped-after-3-hangs");
+        return true;
+    }
     let mut key: Vec<f64> = x.iter().flatten().cloned().collect();
     key.extend(y);
     key.extend(&[eps, c, tol]);
@@ -508,6 +522,7 @@ fn check_svr(out: &mut Out, k: &Kern, x: &[Vec<f64>], y: &[f64], eps: f64, c: f6
     match svr_guarded(k, x, y, eps, c, tol, x, false, secs) {
         None => {
             if k.psd() {
+                HANGS.with(|h| h.set(h.get() + 1));
                 out.fail("svr_termination", &format!("SVR::fit did not return within {} s", secs), svr_input(k, x, y, eps, c, tol));
                 false
             } else {
@@ -981,12 +996,19 @@ fn main() {
         let k = match rng.below(4) {
             0 => Kern::Linear,
             1 => Kern::Rbf(rng.uniform(0.01, 3.0)),
-            2 => Kern::Poly(*rng.pick(&[1.0, 2.0, 3.0, 4.0]), rng.uniform(0.1, 1.5), *rng.pick(&[0.0, 0.5, 1.0])),
+            2 => Kern::Poly(*rng.pick(&[1.0, 2.0, 3.0, 4.0, 0.5, 2.5]), rng.uniform(0.1, 1.5), *rng.pick(&[0.0, 0.5, 1.0])),
             _ => Kern::Sigmoid(rng.uniform(0.01, 0.5), rng.uniform(-1.0, 1.0)),
         };
         let scale = *rng.pick(&[1.0, 1.0, 10.0, 0.01]);
         let va: Vec<f64> = (0..p).map(|_| rng.normal() * scale).collect();
         let vb: Vec<f64> = if rng.chance(0.1) { va.clone() } else { (0..p).map(|_| rng.normal() * scale).collect() };
+        if let Kern::Poly(d, g, c0) = &k {
+            let dot: f64 = va.iter().zip(&vb).map(|(u, v)| u * v).sum();
+            if d.fract() != 0.0 && g * dot + c0 <= 0.0 {
+                out.count("search:kernel:excluded(negative base, fractional degree)");
+                continue;
+            }
+        }
         check_kernel(&mut out, &k, &va, &vb);
     }
     for i in 0..(if t { 3000 } else { 400 }) {
